@@ -489,7 +489,8 @@ func runMulti(id int, src, mode string, rs []string, in []mfileIn) (c MultiCase)
 		return c
 	}
 	c.NViol = len(vs)
-	final, _, iters, ec, em, applied := runFixReport(files, long, vmapFor(mode), 14, 120*time.Second)
+	final, _, iters, ec, em, applied, trace := runFixTrace(files, long, vmapFor(mode), 14, 120*time.Second)
+	trace = append(trace, final)
 	c.Iters, c.Err, c.ErrMsg = iters, ec, em
 	if len(final) != len(files) {
 		c.Pred = "file-set-changed"
@@ -512,26 +513,16 @@ func runMulti(id int, src, mode string, rs []string, in []mfileIn) (c MultiCase)
 					formatted = true
 				}
 			}
-			if f.Pred == "" && formatted {
+			if f.Pred == "" {
 				cfg := verOf(f.Cfg)
 				if f.V0 {
 					cfg = ast.RegoV0 // the version the file has, also when it was detected
 				}
-				// a formatter fix was applied to the file: it ends up as OPA's formatter writes it for the file's version
-				fp, fok := formatFixpoint(f.Path, fin, cfg)
-				switch {
-				case !fok:
-					f.FmtEq = "fmterr"
-				case fp != fin:
-					f.FmtEq = "neq"
-				default:
-					f.FmtEq = "eq"
-				}
-				if f.FmtEq == "eq" && !on["uao"] && !on["nwc"] && !on["nrr"] {
-					// nothing but the formatter ran: the formatter's output for the original
-					if exp, eok := formatFixpoint(f.Path, orig, cfg); !eok || exp != fin {
-						f.FmtEq = "neq"
-					}
+				// every step the file went through: either OPA's formatter output for the file's version of what was
+				// there before (a formatter fix was applied), or documented splices of the enabled text fixes
+				f.FmtEq, f.Pred = stepsOracle(f.Path, cfg, trace, on)
+				if f.Pred == "" && formatted && f.FmtEq == "" {
+					f.Pred = "formatter-fix-reported-but-no-step-is-opa-fmt-output"
 				}
 			}
 		}
@@ -545,6 +536,46 @@ func runMulti(id int, src, mode string, rs []string, in []mfileIn) (c MultiCase)
 		}
 	}
 	return c
+}
+
+// stepsOracle: the contents of one file as linted in iteration 1, 2, ... and at the end.  Returns ("eq" when at
+// least one step was a formatter step and all of them were OPA's output | "", reason of the first bad step | "").
+func stepsOracle(path string, cfg ast.RegoVersion, trace []map[string]string, on map[string]bool) (string, string) {
+	fmtOn := on["fmt"] || on["v1"]
+	textOn := map[string]bool{"uao": on["uao"], "nwc": on["nwc"], "nrr": on["nrr"]}
+	eq := ""
+	for k := 0; k+1 < len(trace); k++ {
+		a, okA := trace[k][path]
+		b, okB := trace[k+1][path]
+		if !okA || !okB {
+			return eq, fmt.Sprintf("step-%d-file-missing", k+1)
+		}
+		if a == b {
+			continue
+		}
+		if fmtOn {
+			if _, mv, err := parseAs(path, a, cfg); err == nil {
+				if want, ok := formatFor(path, a, cfg, formatTarget(mv)); ok && want == b {
+					eq = "eq"
+					continue
+				}
+			}
+		}
+		al, bl := strings.Split(a, "\n"), strings.Split(b, "\n")
+		text := (textOn["uao"] || textOn["nwc"] || textOn["nrr"]) && len(al) == len(bl)
+		for i := 0; text && i < len(al); i++ {
+			if al[i] != bl[i] && !explained(al[i], bl[i], textOn) {
+				text = false
+			}
+		}
+		if !text {
+			if fmtOn {
+				return "neq", fmt.Sprintf("step-%d-neither-opa-fmt-output-for-the-version-of-the-file-nor-documented-splices", k+1)
+			}
+			return eq, fmt.Sprintf("step-%d-not-documented-splices", k+1)
+		}
+	}
+	return eq, ""
 }
 
 var multiRules = [][]string{
